@@ -41,4 +41,55 @@ PROPS = {
             "lap counts 100..1000 not divisible by 10 round down to the field's resolution",
         ],
     },
+    "C05": {
+        "level_text": "Lean refinement theorem on the hand model of the Framed read loop (one definition for the blocking and the tokio connection): for every list of valid frames, every partition of their bytes into read events, any number of Pending / transient I/O error / timeout events and any carried-over buffer, the read results with the transient faults left aside are exactly each frame's own result in order followed by disconnected, and each fault surfaces as exactly one error result (proved by functional induction over the loop with the invariant buffer ++ remaining script bytes = remaining frames). Tied to both real connections by scripted in-memory transports: exhaustive segmentations of short streams, random histories of all decodable kinds incl. undecodable frames, long sessions beyond the 6120-byte buffer, injected faults.",
+        "level_note": "Trusted: Lean kernel; the harness (scripted transports, trace canonicalisation). Memory safety of the unsafe read_buf and BytesMut's reallocation are outside the model. The blocking/tokio equivalence is by construction in the model (one definition) and checked on the code by running identical scripts through both.",
+        "technique": "Lean 4 proof (refinement by functional induction over the read loop) + differential correspondence on scripted transports",
+        "trusted": [
+            "hand-modelled, tied by the correspondence run only: both Framed::read loops, Framed::write, Codec::decode, Mode::decode_length/encode_length, Packet::maybe_pong, Packet::maybe_verify_version",
+            "the packet parser is a parameter of the model (any function from frame bodies to {tiny reqi subt, ver n, other, error, panic}); in the correspondence run it is the real decoder's classification of each distinct frame",
+            "modelled not verified: bytes::BytesMut (split_to, advance, chunk_mut, advance_mut abstracted to list operations; the two unsafe blocks in read_buf are outside the model), tokio's AsyncReadExt::read / write_all_buf / time::timeout, std::io::Write::write_all",
+        ],
+        "rule": "one line per scripted session: frames x partition x fault events x {blocking,tokio} x {compressed,uncompressed} x gate on/off; the op is the script actually returned by the transport, the result is the interleaved trace of read results and outgoing writes; distinct = distinct op text",
+        "assumptions": ["a transport returns between 1 and the offered number of bytes per successful read (whatever the offered slice size), so every session is some partition of the byte stream"],
+        "timeout": {"quick": 900, "thorough": 7200},
+    },
+    "C06": {
+        "level_text": "Lean theorems on the model of write_all / write_all_buf: a successful write put exactly the frame on the wire for every acceptance pattern; a sequence of successful writes delivers the concatenation of the frames in call order; after a failure the wire holds a prefix of it; on a transport that never fails and never accepts 0 bytes every write completes however few bytes each call takes and however often it reports not-ready. Tied to both real connections by a scripted write half (every decodable kind x acceptance sizes, random patterns with Pending, I/O errors and zero-length accepts).",
+        "level_note": "Trusted: Lean kernel; the harness. std::io::Write::write_all and tokio's write_all_buf are modelled (loop until empty, WriteZero on 0, stop at the first error), not verified.",
+        "technique": "Lean 4 proof (functional induction over the write loop) + differential correspondence on scripted transports",
+        "trusted": [
+            "hand-modelled, tied by the correspondence run only: both Framed::read loops, Framed::write, Codec::decode, Mode::decode_length/encode_length, Packet::maybe_pong, Packet::maybe_verify_version",
+            "the packet parser is a parameter of the model (any function from frame bodies to {tiny reqi subt, ver n, other, error, panic}); in the correspondence run it is the real decoder's classification of each distinct frame",
+            "modelled not verified: bytes::BytesMut (split_to, advance, chunk_mut, advance_mut abstracted to list operations; the two unsafe blocks in read_buf are outside the model), tokio's AsyncReadExt::read / write_all_buf / time::timeout, std::io::Write::write_all",
+        ],
+        "rule": "one line per write session: 1..4 packets (decoded from pool frames of every kind, re-encoded by the real encoder) x acceptance script; result = per-call results and all bytes accepted by the transport",
+        "assumptions": [],
+    },
+    "C07": {
+        "level_text": "Lean theorems: only TINY/NONE/reqi 0 is a keep-alive (all sub-types, all request ids, by case analysis, not sampling); the reply is the encoder's image of TINY_NONE in the connection's mode; over any history, segmentation and faults the outgoing bytes are exactly one reply per received keep-alive in order and nothing else, and each reply immediately precedes the delivery of its keep-alive (corollaries of the C05 refinement). Tied by scripted sessions: TINY sub-types 0..31 x request ids, one frame of every decodable kind in every position of a keep-alive history, both flavours and modes.",
+        "level_note": "Trusted: as C05. The write half is assumed healthy here (a failing or short-writing write half is C06's subject).",
+        "technique": "Lean 4 proof (corollary of the read-loop refinement) + differential correspondence on scripted transports",
+        "trusted": [
+            "hand-modelled, tied by the correspondence run only: both Framed::read loops, Framed::write, Codec::decode, Mode::decode_length/encode_length, Packet::maybe_pong, Packet::maybe_verify_version",
+            "the packet parser is a parameter of the model (any function from frame bodies to {tiny reqi subt, ver n, other, error, panic}); in the correspondence run it is the real decoder's classification of each distinct frame",
+            "modelled not verified: bytes::BytesMut (split_to, advance, chunk_mut, advance_mut abstracted to list operations; the two unsafe blocks in read_buf are outside the model), tokio's AsyncReadExt::read / write_all_buf / time::timeout, std::io::Write::write_all",
+        ],
+        "rule": "as C05; the oracle decides keep-alive from the frame bytes (type 3, request id 0, sub-type 0), independently of Packet::maybe_pong",
+        "assumptions": ["the write half accepts every reply (short or failing writes are covered by C06)"],
+        "timeout": {"quick": 900, "thorough": 7200},
+    },
+    "C09": {
+        "level_text": "Lean theorems: with the gate on a version packet is delivered iff it reports 9 and otherwise surfaces IncompatibleVersion(n) for every n; with the gate off every version packet is delivered; no other packet kind is ever rejected; lifted through the C05 refinement to any position in any history (the rejected frame is removed, successors undisturbed). Tied by scripted sessions over all 256 version values x gate on/off x both flavours x positions 0..3 and every decodable kind.",
+        "level_note": "Trusted: as C05.",
+        "technique": "Lean 4 proof (decision table + corollary of the read-loop refinement) + differential correspondence on scripted transports",
+        "trusted": [
+            "hand-modelled, tied by the correspondence run only: both Framed::read loops, Framed::write, Codec::decode, Mode::decode_length/encode_length, Packet::maybe_pong, Packet::maybe_verify_version",
+            "the packet parser is a parameter of the model (any function from frame bodies to {tiny reqi subt, ver n, other, error, panic}); in the correspondence run it is the real decoder's classification of each distinct frame",
+            "modelled not verified: bytes::BytesMut (split_to, advance, chunk_mut, advance_mut abstracted to list operations; the two unsafe blocks in read_buf are outside the model), tokio's AsyncReadExt::read / write_all_buf / time::timeout, std::io::Write::write_all",
+        ],
+        "rule": "as C05; the oracle reads the reported version from byte 18 of the frame, independently of Packet::maybe_verify_version",
+        "assumptions": [],
+        "timeout": {"quick": 900, "thorough": 7200},
+    },
 }
